@@ -1302,3 +1302,5 @@ MANIFEST = {
             "kernel, the spy/translator in c08.py, NumPy's flag semantics (view inheritance, refusal to make a view of "
             "a read-only base writeable).",
 }
+
+MANIFEST_ADDENDUM = 'Oracle addition: flags are observed while the exception of a failing statement is still referenced, and again after it is dropped.'
